@@ -26,6 +26,10 @@ Lemma gen_initial_debt : RateLimitGen.initial_amortised = 0%Q.
 Proof. reflexivity. Qed.
 Lemma gen_tqdm_passthrough : RateLimitGen.tqdm_wrappers_return_underlying_result = true.
 Proof. reflexivity. Qed.
+(* at every rate-limited site: `if rate_limiter is not None: limited_wrapper = rate_limiter.wrap(stream) else: ... = stream`,
+   and the backend receives the progress wrapper built over limited_wrapper - no size or other condition *)
+Lemma gen_sites_wrap_unconditionally : RateLimitGen.rate_limited_sites_wrap_unconditionally = true.
+Proof. reflexivity. Qed.
 
 (* ------------------------------------------------------------------ source constants *)
 Open Scope Q_scope.
